@@ -94,7 +94,7 @@ func derefOutcome(v types.MalType, e error) string {
 }
 
 // one scenario; deterministic=true replays the model's counterexample window through a gate
-func runFutureScenario(rec *futRecorder, rnd *rand.Rand, body string, deterministic bool) error {
+func runFutureScenario(rec *futRecorder, rnd *rand.Rand, body string, deterministic bool, deadctx bool) error {
 	ns, probe, err := NewLoadedEnv()
 	if err != nil {
 		return err
@@ -121,7 +121,13 @@ func runFutureScenario(rec *futRecorder, rnd *rand.Rand, body string, determinis
 	var once sync.Once
 	rec.mu.Lock()
 	rec.fut = nil
-	if deterministic {
+	if deadctx {
+		rec.gate = func(point string) {
+			if point == "future.start" {
+				<-release // hold the body before it starts evaluating
+			}
+		}
+	} else if deterministic {
 		rec.gate = func(point string) {
 			if point == "future.delivered" {
 				<-release // hold the body right after it delivered its outcome
@@ -154,7 +160,56 @@ func runFutureScenario(rec *futRecorder, rnd *rand.Rand, body string, determinis
 		}
 		rec.emit(ev)
 	}
-	if deterministic {
+	if deadctx {
+		// P7 / "blocks until the outcome is available OR THE CALLER'S CONTEXT ENDS": the body is held before it
+		// evaluates anything; a deref whose caller context has already ended must return (DerefCtx in the model),
+		// before and after future-cancel
+		dead, kill := context.WithCancel(ctx)
+		kill()
+		derefDead := func() error {
+			ret := make(chan struct{})
+			go func() {
+				// (a) the Go API with a context that has already ended
+				rec.emit(FutEvent{Ev: "inv", Tid: 1, Op: "deref"})
+				v, oe := fv.(*concurrent.Future).Deref(dead)
+				out := derefOutcome(v, oe)
+				rec.emit(FutEvent{Ev: "res", Tid: 1, Op: "deref", Out: out})
+				// (b) @f from lisp, the caller's context ending while the deref is blocked
+				live, end := context.WithCancel(ctx)
+				timer := time.AfterFunc(20*time.Millisecond, end)
+				rec.emit(FutEvent{Ev: "inv", Tid: 1, Op: "deref"})
+				v, oe = lisp.EVAL(live, read("@f"), ns)
+				timer.Stop()
+				end()
+				out = derefOutcome(v, oe)
+				if oe != nil && strings.Contains(oe.Error(), "timeout") {
+					out = "ctx" // the body is held: only the caller's context can have ended the deref
+				}
+				rec.emit(FutEvent{Ev: "res", Tid: 1, Op: "deref", Out: out})
+				close(ret)
+			}()
+			select {
+			case <-ret:
+				return nil
+			case <-time.After(3 * time.Second):
+				once.Do(func() { close(release) })
+				<-ret
+				return fmt.Errorf("HANG: deref with an ended caller context did not return while the body (%s) could not finish", body)
+			}
+		}
+		if e := derefDead(); e != nil {
+			return e
+		}
+		op(1, "done?", "(future-done? f)", ctx)
+		op(1, "cancel", "(future-cancel f)", ctx)
+		op(1, "cancelled?", "(future-cancelled? f)", ctx)
+		if e := derefDead(); e != nil {
+			return fmt.Errorf("%v (after future-cancel)", e)
+		}
+		once.Do(func() { close(release) })
+		op(1, "deref", "@f", ctx)
+		op(1, "done?", "(future-done? f)", ctx)
+	} else if deterministic {
 		// the model's counterexample to P4/P5 on the original design: the body has delivered
 		// but is held before anything else happens
 		dctx, dcancel := context.WithTimeout(ctx, 5*time.Second)
@@ -240,10 +295,10 @@ func cmdFutures(args []string) {
 	bodies := []string{"value", "error", "sleeps", "ignores"}
 	hangs := []string{}
 	total := 0
-	run := func(body string, det bool) {
+	run := func(body string, det bool, deadctx ...bool) {
 		rec.events = rec.events[:0]
 		total++
-		if e := runFutureScenario(rec, rnd, body, det); e != nil {
+		if e := runFutureScenario(rec, rnd, body, det, len(deadctx) > 0); e != nil {
 			if strings.HasPrefix(e.Error(), "HANG") {
 				hangs = append(hangs, e.Error())
 				return
@@ -259,6 +314,9 @@ func cmdFutures(args []string) {
 	}
 	for _, b := range bodies {
 		run(b, true) // the model's counterexample schedule, deterministically
+	}
+	for _, b := range bodies {
+		run(b, true, true) // derefs with an ended caller context while the body cannot finish
 	}
 	for i := 0; i < *n; i++ {
 		run(bodies[rnd.Intn(len(bodies))], false)
